@@ -37,7 +37,7 @@ pub struct Case {
 
 pub fn gen_case(t: &mut Tape, tier: Tier) -> Option<Case> {
     let mo = if t.chance(0.3) { 1.0 / 64.0 } else { 0.15 };
-    let opts = PhysOpts { max_e: tier.pick(7, 8), max_l: 4, min_omega: mo, dmax: 6, max_ops: 3, profile: gen::SECTOR };
+    let opts = PhysOpts { max_e: tier.pick(7, 8), max_l: 8, min_omega: mo, dmax: 6, max_ops: 3, profile: gen::SECTOR };
     let p = if t.chance(0.1) { gen::gen_phys_union(t, &opts)? } else { gen::gen_phys(t, &opts)? };
     let points: Vec<Vec<f64>> = (0..4).map(|i| if i == 0 { p.x.clone() } else { gen::gen_point(t, &p.g, if i == 3 { &gen::CORNERS } else { &gen::MODERATE }).0 }).collect();
     let n = t.range(1, 40);
